@@ -354,6 +354,27 @@ def json_consts(p):
     return []
 
 
+def json_consts_all(p):
+    """json_consts plus the parameters of kinds the property does not pin (should such a kind be rendered with them,
+    they are constants of the rendering: 'serialisable whenever the constants are')."""
+    import dataclasses
+
+    c = type(p)
+    if c in (AndPredicate, OrPredicate, XorPredicate):
+        return json_consts_all(p.left) + json_consts_all(p.right)
+    if c in (NotPredicate, AllPredicate, AnyPredicate):
+        return json_consts_all(p.predicate)
+    if c in KIND:
+        return json_consts(p)
+    out = []
+    if dataclasses.is_dataclass(p):
+        for f in dataclasses.fields(p):
+            v = getattr(p, f.name, None)
+            if not isinstance(v, P.Predicate) and not callable(v):
+                out.append(v)
+    return out
+
+
 # ---------------------------------------------------------------- one stream
 
 
@@ -383,7 +404,7 @@ def run_stream(chk, name, specs, thunks, stats, keep_samples=None, share=False):
             bad = judge(p, j)
             if bad:
                 chk.add_failure(spec, {"what": "the JSON does not mirror the predicate", "complaints": bad[:3], "json": repr(j)[:300], "predicate": show(spec)}, None)
-            consts = json_consts(p)
+            consts = json_consts_all(p)
             cok = all(dumps_ok(v) for v in consts)
             jok = dumps_ok(j)
             stats["dumps_ok" if jok else "dumps_fails"] += 1
@@ -618,7 +639,7 @@ def replay(path):
         print(f"to_json raised {type(e).__name__}: {e}")
         return 1
     bad = judge(p, j)
-    cok = all(dumps_ok(v) for v in json_consts(p))
+    cok = all(dumps_ok(v) for v in json_consts_all(p))
     print("to_json  :", j)
     print("judged   :", bad or "mirrors the predicate", "| dumps:", dumps_ok(j), "| constants serialisable:", cok)
     return 1 if (bad or (cok and not dumps_ok(j))) else 0
